@@ -163,7 +163,7 @@ def main():
             status = args[args.index("--status") + 1] if "--status" in args else "SILENT"
             only = args[args.index("--only") + 1] if "--only" in args else ""
             for m in json.load(open(args[0])):
-                if m["status"] == status and only in "%s:%d" % (m["file"], m["line"]):
+                if m["status"] == status and only in "%s:%d" % (m["file"], m["line"]) and (not "--swaps" in args or m.get("swap")):
                     jobs.append(dict(m, name="%s:%d  %s  =>  %s" % (m["file"], m["line"], m["old"], m["new"])))
         workers = int(args[args.index("--workers") + 1]) if "--workers" in args else 6
 
@@ -182,7 +182,12 @@ def main():
                 ls = open(p).read().split("\n")
                 old = ls[j["line"] - 1]
                 assert old.strip() == j["old"], (old, j["old"])
-                ls[j["line"] - 1] = old.replace(j["old"], j["new"])
+                if j.get("swap"):
+                    ls[j["line"] - 1], ls[j["line"]] = ls[j["line"]], ls[j["line"] - 1]
+                elif j["new"] == "/* deleted */":
+                    ls[j["line"] - 1] = "/* deleted */"
+                else:
+                    ls[j["line"] - 1] = old.replace(j["old"], j["new"])
                 open(p, "w").write("\n".join(ls))
             diffs = []
             for prof in ("debug", "release"):
